@@ -1,7 +1,10 @@
 #!/usr/bin/env python3
 """Self-test of the stream engine: applies each mutant of selftest.json to a scratch copy of the library tree
 (VERIF_SELFTEST_TREE, default /var/tmp/stream_mut = copy of include/ + source/ under git), runs
-./check C13 --tier quick --engine stream against it and compares the exit code with the expectation."""
+./check C13 --tier quick --engine stream against it and compares the exit code with the expectation.
+The patches are relative to the tree WITH engines/stream/hooks.patch applied (the race mutants need the stream.* schedule points):
+if the base tree (VERIF_REPO, default /repo) does not contain them yet, hooks.patch is applied to the private copy first.
+Each entry's "env" restricts the run (VERIF_STREAM_PART = seq | race, VERIF_STREAM_ONLY = adaptor kinds) to keep it short."""
 import json, os, subprocess, sys, time
 HERE = os.path.dirname(os.path.abspath(__file__))
 VERIF = os.path.dirname(os.path.dirname(HERE))
@@ -11,6 +14,8 @@ if not os.path.isdir(os.path.join(TREE, ".git")):
     base = os.environ.get("VERIF_REPO", "/repo")
     os.makedirs(TREE, exist_ok=True)
     subprocess.run(["cp", "-r", os.path.join(base, "include"), os.path.join(base, "source"), TREE], check=True)
+    if "stream.si.hs_load" not in open(os.path.join(TREE, "include", "unifex", "stop_immediately.hpp")).read():
+        subprocess.run(["patch", "-p1", "-s", "-i", os.path.join(HERE, "hooks.patch")], cwd=TREE, check=True)
     subprocess.run("git init -q . && git add -A >/dev/null && git -c user.email=selftest@verif -c user.name=selftest commit -qm base >/dev/null", shell=True, cwd=TREE, check=True)
 tests = json.load(open(os.path.join(HERE, "selftest.json")))
 only = set(sys.argv[1:])
